@@ -758,16 +758,18 @@ theorem declareFinish_db (nst : Nat) (a : DeclareArgs) (r : Resolved) (tag : Opt
 theorem declare_cases (nst : Nat) (a : DeclareArgs) (p : Proc) :
     declare nst a p = (.refused, p) ∨
     ∃ r rd, resolveDeclare nst a p = some r ∧
-      redeclare (p.mem.findDecl r.target a.name a.ver a.self) r.d r.table (declareTag nst a p.mem).isSome a.force
-        (extDiff p a r.target) = rd ∧
+      redeclare (p.mem.findDecl r.target a.name a.ver a.self)
+        ((p.mem.findDecl r.target a.name a.ver a.self).bind p.tableContent) r.d r.content
+        (declareTag nst a p.mem).isSome a.force (extDiff p a r.target r.diffList) = rd ∧
       rd ≠ .refuse ∧ declare nst a p = declareFinish nst a r (declareTag nst a p.mem) rd p := by
   unfold declare
   cases hr : resolveDeclare nst a p with
   | none => exact Or.inl rfl
   | some r =>
     dsimp only
-    cases hrd : redeclare (p.mem.findDecl r.target a.name a.ver a.self) r.d r.table (declareTag nst a p.mem).isSome a.force
-        (extDiff p a r.target) with
+    cases hrd : redeclare (p.mem.findDecl r.target a.name a.ver a.self)
+        ((p.mem.findDecl r.target a.name a.ver a.self).bind p.tableContent) r.d r.content
+        (declareTag nst a p.mem).isSome a.force (extDiff p a r.target r.diffList) with
     | refuse => exact Or.inl rfl
     | write => exact Or.inr ⟨r, .write, rfl, hrd, by simp, rfl⟩
     | keep => exact Or.inr ⟨r, .keep, rfl, hrd, by simp, rfl⟩
@@ -873,23 +875,24 @@ theorem run_refused (nst : Nat) (c : Cmd) (p : Proc) (h : (run nst c p).1 = .ref
   | remove f n v rc na fo su => exact remove_refused h
   | query f => rfl
 
-/-- a conflicting redeclaration — another directory, or a table file where `none` was declared — without
-force and without a tag is refused -/
+/-- a conflicting redeclaration — another directory, or a table file whose content is not that of the declared
+one (which may be `none`, or missing) — without force and without a tag is refused -/
 theorem declare_conflict_refused {nst : Nat} {a : DeclareArgs} {p : Proc} {r : Resolved} {o : Decl}
     (hr : resolveDeclare nst a p = some r) (hold : p.mem.findDecl r.target a.name a.ver a.self = some o)
     (hforce : a.force = false) (htag : declareTag nst a p.mem = none)
-    (hdiff : o.dir ≠ r.d ∨ (r.table = .default ∧ o.table = .none)) :
+    (hdiff : o.dir ≠ r.d ∨ ∃ c, r.content = some c ∧ p.tableContent o ≠ some c) :
     declare nst a p = (.refused, p) := by
   unfold declare
   rw [hr]
   dsimp only
-  have : redeclare (p.mem.findDecl r.target a.name a.ver a.self) r.d r.table (declareTag nst a p.mem).isSome a.force
-      (extDiff p a r.target) = .refuse := by
+  have : redeclare (p.mem.findDecl r.target a.name a.ver a.self)
+      ((p.mem.findDecl r.target a.name a.ver a.self).bind p.tableContent) r.d r.content
+      (declareTag nst a p.mem).isSome a.force (extDiff p a r.target r.diffList) = .refuse := by
     rw [hold, htag, hforce]
-    simp only [redeclare, Bool.false_eq_true, if_false, Option.isSome_none]
-    rcases hdiff with h | ⟨h1, h2⟩
+    simp only [redeclare, Bool.false_eq_true, if_false, Option.isSome_none, Option.bind_some]
+    rcases hdiff with h | ⟨c, h1, h2⟩
     · simp [h]
-    · simp [h1, h2]
+    · simp [h1, tableDiff, h2]
   rw [this]
 
 /-! ## what a successful command has done -/
@@ -1049,12 +1052,12 @@ theorem declare_ok_tag {nst : Nat} {a : DeclareArgs} {p : Proc} {t : Tag}
 /-! ## commands only extend the trace -/
 
 /-- `q` runs from the same start as `p` -/
-def SameBase (p q : Proc) : Prop := q.db0 = p.db0 ∧ q.mem0 = p.mem0 ∧ q.dirs = p.dirs ∧ q.extras = p.extras
+def SameBase (p q : Proc) : Prop := q.db0 = p.db0 ∧ q.mem0 = p.mem0 ∧ q.dirs = p.dirs ∧ q.extras = p.extras ∧ q.tfiles = p.tfiles
 
-theorem SameBase.refl (p : Proc) : SameBase p p := ⟨rfl, rfl, rfl, rfl⟩
+theorem SameBase.refl (p : Proc) : SameBase p p := ⟨rfl, rfl, rfl, rfl, rfl⟩
 theorem SameBase.emit {p q : Proc} (h : SameBase p q) (e : Eff) : SameBase p (q.emit e) := h
 theorem SameBase.trans {p q r : Proc} (h : SameBase p q) (k : SameBase q r) : SameBase p r :=
-  ⟨k.1.trans h.1, k.2.1.trans h.2.1, k.2.2.1.trans h.2.2.1, k.2.2.2.trans h.2.2.2⟩
+  ⟨k.1.trans h.1, k.2.1.trans h.2.1, k.2.2.1.trans h.2.2.1, k.2.2.2.1.trans h.2.2.2.1, k.2.2.2.2.trans h.2.2.2.2⟩
 
 theorem doUnassign_base (f : Flav) (t : Tag) (n : Name) (s : Nat) (na : Bool) (p : Proc) :
     SameBase p (doUnassign f t n s na p).2 := by
@@ -1293,10 +1296,48 @@ theorem findProducts_ne_nil {m : Spec} {nst : Nat} {self : Flav} {n : Name} {d :
 /-- argument resolution for the plain form `declare name version directory`: directory and its table file
 exist, no tag, no stack argument, the directory lies in a stack of the path -/
 theorem resolveDeclare_explicit {nst : Nat} {a : DeclareArgs} {p : Proc} {d : Dir}
-    (hdir : a.dir = some d) (htag : a.tag = none) (htn : a.tableNone = false) (hstack : a.stack = none)
+    (hdir : a.dir = some d) (htag : a.tag = none) (htn : a.table = .dflt) (hstack : a.stack = none)
     (hex : p.dirExists d = true) (htab : p.tableExists d a.name = true) (hroot : d.root < nst) :
-    resolveDeclare nst a p = some ⟨d, .default, d.root⟩ := by
-  unfold resolveDeclare resolveDirTable targetOf
+    resolveDeclare nst a p = some ⟨d, .default, d.root, some 0, a.ext, a.ext⟩ := by
+  unfold resolveDeclare resolveDirTable targetOf classifyTable
   simp [hdir, htag, htn, hstack, hex, htab, hroot]
+
+/-- the table classification settles the table only: directory and stack are passed through -/
+theorem classifyTable_some {a : DeclareArgs} {d : Dir} {target : Nat} {t : TableArg} {p : Proc} {r : Resolved}
+    (h : classifyTable a d target t p = some r) : r.d = d ∧ r.target = target := by
+  unfold classifyTable at h
+  cases t with
+  | none => simp only [Option.some.injEq] at h; subst h; exact ⟨rfl, rfl⟩
+  | dflt =>
+    dsimp only at h
+    split at h
+    · simp only [Option.some.injEq] at h; subst h; exact ⟨rfl, rfl⟩
+    · cases h
+  | stream c => simp only [Option.some.injEq] at h; subst h; exact ⟨rfl, rfl⟩
+  | path q =>
+    dsimp only at h
+    split at h
+    · simp only [Option.some.injEq] at h; subst h; exact ⟨rfl, rfl⟩
+    · split at h
+      · simp only [Option.some.injEq] at h; subst h; exact ⟨rfl, rfl⟩
+      · cases h
+
+theorem resolveDeclare_some {nst : Nat} {a : DeclareArgs} {p : Proc} {r : Resolved}
+    (h : resolveDeclare nst a p = some r) : r.target = targetOf nst a r.d := by
+  unfold resolveDeclare at h
+  split at h
+  · cases h
+  · obtain ⟨h1, h2⟩ := classifyTable_some h
+    rw [h2, h1]
+
+/-- argument resolution for `declare name version directory -m <path>`: the directory exists, the path is not
+below the database directory of the stack and holds a file with content `c` -/
+theorem resolveDeclare_explicit_path {nst : Nat} {a : DeclareArgs} {p : Proc} {d q : Dir} {c : Nat}
+    (hdir : a.dir = some d) (htag : a.tag = none) (htn : a.table = .path q) (hstack : a.stack = none)
+    (hex : p.dirExists d = true) (hroot : d.root < nst) (hq : underUpsDb d.root q = false)
+    (hc : p.fileContent q = some c) :
+    resolveDeclare nst a p = some ⟨d, .ext q, d.root, some c, a.ext, a.ext⟩ := by
+  unfold resolveDeclare resolveDirTable targetOf classifyTable
+  simp [hdir, htag, htn, hstack, hex, hroot, hq, hc]
 
 end EupsModel.Db
